@@ -133,8 +133,9 @@ impl WebRtcListener {
                 .flat_map(|iface| {
                     iface.addr.into_iter().filter_map(|iface_address| {
                         match (iface_address, sockaddr.is_ipv4()) {
-                            (Addr::V4(addr), true) =>
-                                Some(SocketAddr::new(IpAddr::V4(addr.ip), sockaddr.port())),
+                            (Addr::V4(addr), true) => {
+                                Some(SocketAddr::new(IpAddr::V4(addr.ip), sockaddr.port()))
+                            }
                             (Addr::V6(addr), false) => match addr.ip.segments().first() {
                                 Some(0xfe80) => None,
                                 _ => Some(SocketAddr::new(IpAddr::V6(addr.ip), sockaddr.port())),
